@@ -23,3 +23,5 @@ mod c11_vecops;
 mod c12_flex;
 #[cfg(kani)]
 mod c12_hist;
+#[cfg(kani)]
+mod c15_extra;
